@@ -38,6 +38,9 @@ def validate(ctx, ev, inputs_dec):
         vs = it.run_graph(gid, ins)
     except Unsupported as e:
         return dict(ok=None, compared=0, mismatches=[], note="unsupported: %s" % e)
+    except (ValueError, IndexError, AssertionError, KeyError, TypeError) as e:
+        return dict(ok=False, compared=0, note="not evaluable",
+                    mismatches=[dict(node=None, op="<graph>", why="graph is not evaluable under the documented semantics (operand shapes/types do not fit): %r" % (e,))])
     mism = []
     compared = 0
     for nid, n in enumerate(g["nodes"]):
